@@ -178,7 +178,7 @@ End LoopStrong.
 
 (* the strengthened tie *)
 Theorem tie_strong P s o w' r' k' raws :
-  pc_filter P = None -> buffer_idle (p_buf s) -> p_stopped s = false -> k_queue (p_k s) = [] ->
+  pc_filter P = None -> buffer_idle (p_buf s) -> p_stopped s = false ->
   (forall id, In id (map fst (p_tbl s)) -> id < p_next s) ->
   apply_op (p_world s) o = Some w' ->
   read_batch (pc_reader P) (w_fs w') (p_r s, kdrained (kernel_op (p_k s) (w_fs (p_world s)) o), [])
@@ -191,7 +191,7 @@ Theorem tie_strong P s o w' r' k' raws :
     buffer_idle (p_buf s') /\ p_stopped s' = false /\
     (forall id, In id (map fst (p_tbl s')) -> id < p_next s').
 Proof.
-  intros HF Hidle Hstop Hkq Hfresh Happ Hrd Hsafe.
+  intros HF Hidle Hstop Hfresh Happ Hrd Hsafe.
   set (k1 := kernel_op (p_k s) (w_fs (p_world s)) o) in *.
   destruct s as [w k r [d rs] tbl0 nx out stopped]. cbn [p_world p_k p_r p_buf p_tbl p_next p_out p_stopped] in *.
   subst stopped. destruct Hidle as [Hq [Hcl [Hpc [Hb [Hg [Hds Hfr]]]]]]. cbn [fst snd] in *.
